@@ -67,6 +67,46 @@ func init() {
 				anchorLost("selector.go: BuildStaticWeightList: `maxRange, totalWeight = <lit>, <lit>` not found")
 			}
 		}
+		// the tie-break between equal running weights inside the sort.Slice comparator must be
+		// `endpoints[..].String() < endpoints[..].String()`: String() is what the model's Slot.key is and
+		// what theorem C13_equal_weights_rotation needs to be a total order on the set (a field such as
+		// Key may be empty or shared)
+		if fd := sel.funcDecl("BuildStaticWeightList"); fd != nil {
+			found := false
+			ast.Inspect(fd, func(n ast.Node) bool {
+				fl, ok := n.(*ast.FuncLit)
+				if !ok {
+					return true
+				}
+				ast.Inspect(fl, func(m ast.Node) bool {
+					be, ok := m.(*ast.BinaryExpr)
+					if !ok || be.Op != token.LSS {
+						return true
+					}
+					isStr := func(e ast.Expr) bool {
+						c, ok := e.(*ast.CallExpr)
+						if !ok || len(c.Args) != 0 {
+							return false
+						}
+						se, ok := c.Fun.(*ast.SelectorExpr)
+						if !ok || se.Sel.Name != "String" {
+							return false
+						}
+						ix, ok := se.X.(*ast.IndexExpr)
+						return ok && exprStr(sel.fset, ix.X) == "endpoints"
+					}
+					if isStr(be.X) && isStr(be.Y) {
+						found = true
+					}
+					return true
+				})
+				return true
+			})
+			if !found {
+				anchorLost("selector.go: BuildStaticWeightList: comparator no longer breaks ties by `endpoints[i].String() < endpoints[j].String()`")
+			}
+			add("selTieBreakByString", 1, found)
+		}
 		// endpoint.EStaticWeight (iota block ELoop, EStaticWeight)
 		ep := parse("tars/util/endpoint/endpoint.go")
 		if cs := ep.iotaConsts("ELoop"); cs != nil {
